@@ -1036,11 +1036,19 @@ fn real_bundle(case: &Case) -> String {
         let config = config.with_location(&case.proj);
         let out = "bundle-output/out.lua";
         let options = darklua_core::Options::new(&case.source).with_output(out).with_configuration(config);
-        let ok = match darklua_core::process(&resources, options) {
-            Ok(tree) => tree.result().is_ok(),
-            Err(_) => false,
+        let errors: Vec<String> = match darklua_core::process(&resources, options) {
+            Ok(tree) => tree.result().err().map(|es| es.iter().map(|e| e.to_string()).collect()).unwrap_or_default(),
+            Err(e) => vec![e.to_string()],
         };
-        if !ok {
+        if !errors.is_empty() {
+            // a resolved file the bundler cannot load because it has no extension: name it
+            for e in &errors {
+                if let Some(i) = e.find("without an extension at `") {
+                    let rest = &e[i + "without an extension at `".len()..];
+                    let end = rest.find('`').unwrap_or(rest.len());
+                    return format!("error no-extension {}", &rest[..end]);
+                }
+            }
             return "error".to_owned();
         }
         let code = match resources.get(out) {
@@ -1753,31 +1761,41 @@ A locator case is non-trivial when at least one candidate file exists (the loop 
     pool.truncate(if thorough { 40_000 } else { 6_000 });
     let bundle_results = run_bundle_cases(&pool, threads);
     let f30_known = known_entry(&known, "F30").is_some();
-    let f31_known = known_entry(&known, "F31").is_some();
     for (case, got) in pool.iter().zip(bundle_results.iter()) {
         let want = match &case.expect {
             Some(Expect::File(loc)) => format!("marker {}", loc_string(loc)),
             _ => s("error"),
         };
         report.case(Some(hash_of(&("bundle", format!("{:?}", case.mode), &case.proj, &case.files, &case.source, &case.req))));
-        let no_extension = want.starts_with("marker") && !(want.ends_with(".lua") || want.ends_with(".luau"));
-        let region = if alias_then_parent(&case.req) {
-            "F30"
-        } else if no_extension {
-            "F31"
+        let lua_file = want.ends_with(".lua") || want.ends_with(".luau");
+        let no_extension = want.starts_with("marker") && Path::new(&want["marker ".len()..]).extension().is_none();
+        if want.starts_with("marker") && !lua_file && !no_extension {
+            // a data file (`data.json`): the leaf files of this generator hold Lua text, skip
+            report.hist("bundle", "skipped (documented file is a data file)");
+            continue;
+        }
+        let region = if alias_then_parent(&case.req) { "F30" } else { "" };
+        // the first existing candidate may be a file without an extension (`the given path`,
+        // `path/init`): resolution must still pick it, and the bundler - which loads resources by
+        // extension - must refuse exactly that file with its "without an extension" error
+        let matches = if no_extension && region.is_empty() {
+            match (got.strip_prefix("error no-extension "), &case.expect) {
+                (Some(p), Some(Expect::File(loc))) => &walk(&cwd(), p) == loc,
+                _ => false,
+            }
         } else {
-            ""
+            &want == got
         };
-        if &want == got {
-            report.hist("bundle", if want == "error" { "fails as documented (no candidate)" } else { "inlines the documented file" });
+        if matches {
+            report.hist("bundle", if no_extension { "refuses the documented extension-less file by name" } else if want == "error" { "fails as documented (no candidate)" } else { "inlines the documented file" });
             continue;
         }
         report.hist("bundle", if region.is_empty() { "differs" } else { region });
-        let excused = (region == "F30" && f30_known) || (region == "F31" && f31_known && (got == "panic" || got == "error"));
+        let excused = region == "F30" && f30_known;
         if !excused {
             let mut input = case.to_json();
             input["op"] = json!("bundle");
-            report.violation(Violation { kind: s("oracle"), check: format!("bundle-inlines-first-existing/{}", case.kind), what: format!("documented `{}`, bundled `{}`", want, got), input, failing_input_found: true });
+            report.violation(Violation { kind: s("oracle"), check: format!("bundle-inlines-first-existing/{}", case.kind), what: format!("documented `{}`{}, bundled `{}`", want, if no_extension { " (to be refused as a resource without an extension)" } else { "" }, got), input, failing_input_found: true });
         }
     }
     // ---- F. histories: one locator answers several calls (resolution must be a function of
@@ -1986,6 +2004,20 @@ fn check_corpus_entry(report: &mut Report, model: &mut Model, v: &Value, known: 
                     report.violation(Violation { kind: s("oracle"), check: s("corpus/convert"), what, input: input.clone(), failing_input_found: true });
                 } else if before.is_some() && arg.as_ref().ok() != model_arg.as_ref() {
                     report.violation(Violation { kind: s("correspondence"), check: s("corpus/convert"), what: format!("real `{:?}` model `{}`", arg, m), input: input.clone(), failing_input_found: false });
+                }
+            }
+        }
+        Some("bundle") => {
+            // a stored end-to-end expectation: `marker <file>` | `error` | `error no-extension <file>`
+            if let (Some(case), Some(expect)) = (Case::from_json(input), input["expect"].as_str()) {
+                let got = real_bundle(&case);
+                report.case(Some(("corpus-bundle", input.to_string())));
+                let same = match (got.strip_prefix("error no-extension "), expect.strip_prefix("error no-extension ")) {
+                    (Some(a), Some(b)) => walk(&cwd(), a) == walk(&cwd(), b),
+                    _ => got == expect,
+                };
+                if !same {
+                    report.violation(Violation { kind: s("oracle"), check: s("corpus/bundle"), what: format!("expected `{}`, bundled `{}`", expect, got), input: input.clone(), failing_input_found: true });
                 }
             }
         }
